@@ -230,7 +230,7 @@ type target struct {
 	call func(c conv) (i *big.Int, f float64, b bool, err error)
 }
 
-func pow2(n uint) *big.Int { return new(big.Int).Lsh(big.NewInt(1), n) }
+func pow2(n uint) *big.Int     { return new(big.Int).Lsh(big.NewInt(1), n) }
 func sub1(x *big.Int) *big.Int { return new(big.Int).Sub(x, big.NewInt(1)) }
 func neg(x *big.Int) *big.Int  { return new(big.Int).Neg(x) }
 
@@ -361,7 +361,7 @@ func wrap(v any, mode int) conv {
 
 // roundHalfAway rounds x to the nearest integer, ties away from zero.
 func roundHalfAway(x *big.Rat) *big.Int {
-	num, den := x.Num(), x.Denom() // den > 0
+	num, den := x.Num(), x.Denom()                      // den > 0
 	q, r := new(big.Int).QuoRem(num, den, new(big.Int)) // truncated toward zero
 	r2 := new(big.Int).Abs(r)
 	r2.Lsh(r2, 1)
@@ -756,56 +756,56 @@ var regressions = []struct {
 	t string
 }{
 	// DESIGN §4 #4: narrowing without (correct) range guard
-	{f64src(1e10), "ToInt32"},                        // (-2147483648, nil)
-	{f64src(math.NaN()), "ToInt32"},                  // (garbage, nil)
-	{f64src(-1), "ToUint32"},                         // wraps
-	{f64src(4294967296), "ToUint32"},                 // wraps
-	{f64src(-1), "ToUintptr"},                        // (2^64-1, nil)
-	{f32src(-1), "ToUintptr"},                        //
-	{f64src(math.Inf(1)), "ToUintptr"},               //
-	{f32src(2147483648), "ToInt32"},                  // guard constant rounds up in float32
-	{f32src(9223372036854775808), "ToInt64"},         // 2^63 passes `<= MaxInt64`
-	{f64src(9223372036854775808), "ToInt64"},         //
-	{f32src(4294967296), "ToUint32"},                 // 2^32 passes `<= MaxUint32` in float32
-	{f64src(18446744073709551616), "ToUint64"},       // 2^64 passes `<= MaxUint64`
-	{f32src(18446744073709551616), "ToUint64"},       //
-	{iSrc("int8", -1), "ToByte"},                     // (255, nil)
-	{iSrc("int8", -1), "ToUint8"},                    //
-	{iSrc("int", -1), "ToUint"},                      // (2^64-1, nil)
-	{iSrc("int8", -1), "ToUint"},                     //
-	{iSrc("int16", -1), "ToUint"},                    //
-	{iSrc("int32", -1), "ToUint"},                    //
-	{iSrc("int8", -1), "ToUint16"},                   //
-	{iSrc("int16", -1), "ToUint16"},                  //
-	{iSrc("int8", -1), "ToUint32"},                   //
-	{iSrc("int16", -1), "ToUint32"},                  //
-	{iSrc("int32", -1), "ToUint32"},                  //
-	{iSrc("int", -1), "ToUint64"},                    //
-	{iSrc("int8", -1), "ToUint64"},                   //
-	{iSrc("int16", -1), "ToUint64"},                  //
-	{iSrc("int32", -1), "ToUint64"},                  //
-	{iSrc("int64", -1), "ToUint64"},                  //
-	{iSrc("int", -1), "ToUintptr"},                   //
-	{iSrc("int8", -1), "ToUintptr"},                  //
-	{iSrc("int16", -1), "ToUintptr"},                 //
-	{iSrc("int32", -1), "ToUintptr"},                 //
-	{iSrc("int64", -1), "ToUintptr"},                 //
-	{sInt("200"), "ToByte"},                          // fitting value rejected (parsed as int8)
-	{sInt("-5"), "ToByte"},                           // (251, nil)
-	{sInt("-5"), "ToUint"},                           //
-	{sInt("4294967295"), "ToUint"},                   // fitting value rejected (parsed as int32)
-	{sInt("40000"), "ToUint16"},                      //
-	{sInt("-5"), "ToUint16"},                         //
-	{sInt("4294967295"), "ToUint32"},                 //
-	{sInt("-5"), "ToUint32"},                         //
-	{sInt("18446744073709551615"), "ToUint64"},       //
-	{sInt("-5"), "ToUint64"},                         //
-	{sInt("4294967295"), "ToUintptr"},                // passes today; keeps the portable bound pinned
-	{sInt("-5"), "ToUintptr"},                        //
-	{f64src(1e300), "ToFloat32"},                     // (+Inf, nil)
-	{f64src(-1e39), "ToFloat32"},                     //
-	{uSrc("uint64", math.MaxUint64), "ToFloat32"},    // fits
-	{f64src(math.MaxFloat32), "ToFloat32"},           // fits
+	{f64src(1e10), "ToInt32"},                     // (-2147483648, nil)
+	{f64src(math.NaN()), "ToInt32"},               // (garbage, nil)
+	{f64src(-1), "ToUint32"},                      // wraps
+	{f64src(4294967296), "ToUint32"},              // wraps
+	{f64src(-1), "ToUintptr"},                     // (2^64-1, nil)
+	{f32src(-1), "ToUintptr"},                     //
+	{f64src(math.Inf(1)), "ToUintptr"},            //
+	{f32src(2147483648), "ToInt32"},               // guard constant rounds up in float32
+	{f32src(9223372036854775808), "ToInt64"},      // 2^63 passes `<= MaxInt64`
+	{f64src(9223372036854775808), "ToInt64"},      //
+	{f32src(4294967296), "ToUint32"},              // 2^32 passes `<= MaxUint32` in float32
+	{f64src(18446744073709551616), "ToUint64"},    // 2^64 passes `<= MaxUint64`
+	{f32src(18446744073709551616), "ToUint64"},    //
+	{iSrc("int8", -1), "ToByte"},                  // (255, nil)
+	{iSrc("int8", -1), "ToUint8"},                 //
+	{iSrc("int", -1), "ToUint"},                   // (2^64-1, nil)
+	{iSrc("int8", -1), "ToUint"},                  //
+	{iSrc("int16", -1), "ToUint"},                 //
+	{iSrc("int32", -1), "ToUint"},                 //
+	{iSrc("int8", -1), "ToUint16"},                //
+	{iSrc("int16", -1), "ToUint16"},               //
+	{iSrc("int8", -1), "ToUint32"},                //
+	{iSrc("int16", -1), "ToUint32"},               //
+	{iSrc("int32", -1), "ToUint32"},               //
+	{iSrc("int", -1), "ToUint64"},                 //
+	{iSrc("int8", -1), "ToUint64"},                //
+	{iSrc("int16", -1), "ToUint64"},               //
+	{iSrc("int32", -1), "ToUint64"},               //
+	{iSrc("int64", -1), "ToUint64"},               //
+	{iSrc("int", -1), "ToUintptr"},                //
+	{iSrc("int8", -1), "ToUintptr"},               //
+	{iSrc("int16", -1), "ToUintptr"},              //
+	{iSrc("int32", -1), "ToUintptr"},              //
+	{iSrc("int64", -1), "ToUintptr"},              //
+	{sInt("200"), "ToByte"},                       // fitting value rejected (parsed as int8)
+	{sInt("-5"), "ToByte"},                        // (251, nil)
+	{sInt("-5"), "ToUint"},                        //
+	{sInt("4294967295"), "ToUint"},                // fitting value rejected (parsed as int32)
+	{sInt("40000"), "ToUint16"},                   //
+	{sInt("-5"), "ToUint16"},                      //
+	{sInt("4294967295"), "ToUint32"},              //
+	{sInt("-5"), "ToUint32"},                      //
+	{sInt("18446744073709551615"), "ToUint64"},    //
+	{sInt("-5"), "ToUint64"},                      //
+	{sInt("4294967295"), "ToUintptr"},             // passes today; keeps the portable bound pinned
+	{sInt("-5"), "ToUintptr"},                     //
+	{f64src(1e300), "ToFloat32"},                  // (+Inf, nil)
+	{f64src(-1e39), "ToFloat32"},                  //
+	{uSrc("uint64", math.MaxUint64), "ToFloat32"}, // fits
+	{f64src(math.MaxFloat32), "ToFloat32"},        // fits
 }
 
 func TestRegress(t *testing.T) {
